@@ -3,7 +3,7 @@ import re
 from ..ir import AnalysisBroken, strip_targs, qmatch
 from ..graph import Graph
 from ..expr import access_path, path_str, reaching_defs, norm_cond, origins, leaves, defs_in_node, is_transparent_call
-from .common import strip_casts, short, comparison
+from .common import strip_casts, short, comparison, gated_by
 
 UNITS = ['sdk/src/trace/tracer.cc', 'sdk/src/common/random.cc', 'sdk/src/trace/random_id_generator.cc']
 DRIVERS = ['api_context.cc', 'trace_headers.cc']
@@ -425,7 +425,10 @@ def rule_r3(ck, prog, f, g, rd, parent_vid, rule='C05.R3'):
                 return (lab[2] if pol else not lab[2]) is want
             return False
         return pred
-    # trace id
+    def parent_valid_call(ff, cn):
+        return strip_targs(cn.get('c', '')).endswith('SpanContext::IsValid') and cn.get('obj') is not None and \
+            strip_casts(ff, cn['obj']).get('id') == parent_vid
+    # trace id (decided by pinning the validity test of the parent: named booleans and rewritten guards are folded)
     tn = strip_casts(f, args[0])
     ok = True
     why = []
@@ -440,12 +443,12 @@ def rule_r3(ck, prog, f, g, rd, parent_vid, rule='C05.R3'):
             names = {strip_targs(f.nodes[j].get('c', '')).rsplit('::', 1)[-1] for j in f.subtree(val) if f.nodes[j]['k'] == 'call'}
             if 'trace_id' in names:
                 kinds['parent'] = dp
-                if not g.must_pass_edge(dp, parent_valid_edge(True)):
+                if not gated_by(g, [dp], parent_valid_call, True)[0]:
                     ok = False
                     why.append('the parent\'s trace id is taken on a path where the parent is not known valid')
             elif 'GenerateTraceId' in names:
                 kinds['fresh'] = dp
-                if not g.must_pass_edge(dp, parent_valid_edge(False)):
+                if not gated_by(g, [dp], parent_valid_call, False)[0]:
                     ok = False
                     why.append('a fresh trace id is generated although the parent is valid: the child leaves its parent\'s trace')
             else:
@@ -498,6 +501,17 @@ def rule_r3(ck, prog, f, g, rd, parent_vid, rule='C05.R3'):
                     rest = [p_ for (p_, vx) in defs_all if not (vx is not None and strip_casts(p_.f, vx).get('v') in (0, 1))]
                     if trues and not rest and all(g.must_pass_edge(p_, parent_valid_edge(True)) for p_ in trues):
                         return 'parentValid', pol
+                    # a named result of the validity test itself: `const bool has_valid_parent = parent.IsValid();`
+                    pols = set()
+                    for (p_, vx) in defs_all:
+                        if vx is None:
+                            pols.add(None)
+                            continue
+                        c2, pol2 = norm_cond(p_.f, vx)
+                        n2 = strip_casts(p_.f, c2)
+                        pols.add(pol2 if (n2['k'] == 'call' and parent_valid_call(p_.f, n2)) else None)
+                    if len(pols) == 1 and None not in pols:
+                        return 'parentValid', (pol if pols.pop() else not pol)
                 else:
                     srcs = origins(g, rd, ff, cn['i'], ctx)
                     if srcs and all(is_sampler_state(sf, sn['i']) for (sf, sn, sc_) in srcs):
